@@ -350,6 +350,17 @@ impl<'a> Cx<'a> {
                     else if let Some((_, c)) = full("( $A . len ( ) - $n ) % 2 != 0") { At::OddAfter(c[0].parse().unwrap_or(-1)) }
                     else if full("$A . len ( ) % 2 == 0").is_some() { At::EvenLen }
                     else if full("$A . is_empty ( )").is_some() { At::Lt(1) }
+                    // the same tests spelled differently: `<=` / `>=`, operands swapped, negated
+                    else if let Some((_, c)) = full("$A . len ( ) <= $n") { At::Lt(c[0].parse::<i64>().unwrap_or(-2) + 1) }
+                    else if let Some((_, c)) = full("$A . len ( ) >= $n") { At::Gt(c[0].parse::<i64>().unwrap_or(0) - 1) }
+                    else if let Some((_, c)) = full("$n > $A . len ( )") { At::Lt(c[0].parse().unwrap_or(-1)) }
+                    else if let Some((_, c)) = full("$n < $A . len ( )") { At::Gt(c[0].parse().unwrap_or(-1)) }
+                    else if let Some((_, c)) = full("$n != $A . len ( )") { At::Ne(c[0].parse().unwrap_or(-1)) }
+                    else if let Some((_, c)) = full("! ( $A . len ( ) >= $n )") { At::Lt(c[0].parse().unwrap_or(-1)) }
+                    else if let Some((_, c)) = full("! ( $A . len ( ) == $n )") { At::Ne(c[0].parse().unwrap_or(-1)) }
+                    else if let Some((_, c)) = full("! ( $A . len ( ) <= $n )") { At::Gt(c[0].parse().unwrap_or(-1)) }
+                    else if let Some((_, c)) = full("! ( $A . len ( ) > $n )") { At::Lt(c[0].parse::<i64>().unwrap_or(-2) + 1) }
+                    else if let Some((_, c)) = full("( $A . len ( ) - $n ) % 2 == 1") { At::OddAfter(c[0].parse().unwrap_or(-1)) }
                     else { At::Other }
                 }).collect();
                 let rule = match parsed.as_slice() {
